@@ -98,7 +98,7 @@ impl GeAffine {
             x = &x * &Fe::SQRTM1;
         }
 
-        if x.is_negative() == ((s[31] >> 7) != 0) {
+        if x.is_negative() != ((s[31] >> 7) != 0) {
             x.negate_mut();
         }
         Some(Self { x, y })
@@ -373,6 +373,19 @@ impl Ge {
         }
 
         h
+    }
+}
+
+impl Neg for &Ge {
+    type Output = Ge;
+
+    fn neg(self) -> Ge {
+        Ge {
+            x: -&self.x,
+            y: self.y.clone(),
+            z: self.z.clone(),
+            t: -&self.t,
+        }
     }
 }
 
